@@ -349,6 +349,38 @@ LISTINGS = [
 ]
 
 
+BOUNDARY_NUMS = ['0', '00', '1', '01', '12', '13', '24', '25', '29', '30', '31', '32', '59', '60', '69', '70', '99', '100', '101', '999',
+                 '1000', '1600', '1601', '1899', '1900', '1969', '1970', '2000', '2038', '2039', '9999', '10000', '99999', '-1', '']
+MONTHS = ['Jan', 'Feb', 'JAN', 'feb', 'Sep', 'Sept', 'Dec', 'Foo', 'M\xe4r', '\xe7a\xc4\x9f', '1\xe6\x9c\x88', '12', '0', '']
+
+
+def gen_listing(rng):
+    '''Directory listings built from the line grammars the parser knows (unix, MS-DOS/IIS, MLSD-like), with every
+    numeric field drawn from boundary values (two/three/four digit years around 100, 1970, 2038, 10000; month and day
+    0/13/32; hours 24/25; minutes 60).'''
+    n = lambda: rng.choice(BOUNDARY_NUMS)  # noqa
+    lines = []
+    for _ in range(rng.choice([1, 1, 2, 4])):
+        style = rng.randrange(5)
+        name = rng.choice(['file.txt', 'a b', '.', '..', 'x -> y', '', '\xe9', 'dir/', 'a\tb'])
+        if style == 0:
+            lines.append('{}-{}-{}  {}:{}{}  {}  {}'.format(n(), n(), n(), n(), n(), rng.choice(['AM', 'PM', '', 'am', 'XM']),
+                                                           rng.choice(['<DIR>', n(), '<JUNCTION>', '']), name))
+        elif style == 1:
+            lines.append('{}{}{}  {}:{}  {}  {}'.format(n(), rng.choice('-/.'), n() + rng.choice('-/.') + n(), n(), n(),
+                                                        rng.choice(['<DIR>', n()]), name))
+        elif style == 2:
+            lines.append('{} {} {} {} {} {} {} {} {}'.format(rng.choice(['-rw-r--r--', 'drwxr-xr-x', 'lrwxrwxrwx', '-rwsr-xr-t', '?---------', 'd']),
+                                                             n(), rng.choice(['user', '0', '']), rng.choice(['group', '0']), n(),
+                                                             rng.choice(MONTHS), n(), rng.choice([n() + ':' + n(), n(), n() + ':' + n() + ':' + n()]), name))
+        elif style == 3:
+            lines.append('{} {} {} {} {} {}-{}-{} {}:{} {}'.format(rng.choice(['-rw-r--r--', 'drwxr-xr-x']), n(), 'u', 'g', n(), n(), n(), n(), n(), n(), name))
+        else:
+            lines.append('type={};size={};modify={}{}{}{}{}{}; {}'.format(rng.choice(['file', 'dir', 'cdir', 'OS.unix=slink:/x', '']), n(),
+                                                                        n(), n(), n(), n(), n(), n(), name))
+    return ('\r\n'.join(lines) + '\r\n').encode('latin-1')
+
+
 def ftp_case(rng):
     target = rng.choice(['welcome', 'user', 'pass', 'size', 'type', 'pasv', 'begin', 'final', 'listing', 'listing', 'listing'])
     listing = rng.random() < 0.5 or target == 'listing'
@@ -356,7 +388,9 @@ def ftp_case(rng):
             'pasv': b'227 Entering Passive Mode (127,0,3,9,156,65)\r\n', 'begin': b'150 go\r\n', 'final': b'226 done\r\n',
             'listing': rng.choice(LISTINGS)}[target]
     r = rng.random()
-    if r < 0.6:
+    if target == 'listing' and r < 0.35:
+        value = gen_listing(rng)
+    elif r < 0.6:
         value = mutate(rng, base)
     elif r < 0.8:
         value = bytes(rng.randrange(256) for _ in range(rng.randrange(1, 80))) + (b'\r\n' if target != 'listing' else b'')
@@ -402,10 +436,34 @@ def run_ftp(case, part):
 
 
 # ----------------------------------------------------------------------------------------------- robots
+def gen_robots_file(rng):
+    '''Well-formed but unusual robots.txt files: records made of any subset of directive kinds (a record with only a
+    crawl delay, only agents, rules before any agent), odd values, comment and blank line placement.'''
+    out = []
+    for _ in range(rng.choice([1, 2, 3, 5])):
+        if rng.random() < 0.85:
+            for _ in range(rng.choice([1, 1, 2])):
+                out.append('User-agent: ' + rng.choice(['*', 'wpull', 'Wpull/2', '', 'other', '*bot*']))
+        kinds = rng.sample(['Disallow', 'Allow', 'Crawl-delay', 'Sitemap', 'Request-rate', 'Visit-time', 'Host', 'Noindex'], rng.randrange(0, 4))
+        for k in kinds:
+            for _ in range(rng.choice([1, 1, 3])):
+                v = {'Crawl-delay': rng.choice(['5', '0.5', '', 'abc', '-1', '1e400', '999999999999999999999']),
+                     'Request-rate': rng.choice(['1/5', '1/0', '/', '1/5s', 'x/y', '3', '1/5m 0600-0845']),
+                     'Visit-time': rng.choice(['0600-0845', '2500-9999', '-', '0600']),
+                     'Sitemap': rng.choice(['http://h.test/s.xml', '', '/s.xml', 'http://[bad'])}.get(
+                         k, rng.choice(['/', '', '/x', '/some/page', '*', '/*$', '/so*e/', '$', '/x?y=*', '%', '/%zz', '/\xe9']))
+                out.append('{}{} {}'.format(k if rng.random() < 0.8 else k.upper(), rng.choice([':', ':', ' :', ':\t']), v))
+        out.append(rng.choice(['', '', '# c', '   # c', '\t']))
+    eol = rng.choice(['\n', '\r\n', '\r'])
+    return eol.join(out).encode('utf-8')
+
+
 def robots_case(rng):
     body = rng.choice([b'User-agent: *\nDisallow: /x\n', b'User-agent: *\r\nDisallow:\r\nCrawl-delay: 5\r\nSitemap: http://h/s.xml\r\n'])
     r = rng.random()
-    if r < 0.5:
+    if r < 0.3:
+        body = gen_robots_file(rng)
+    elif r < 0.6:
         body = mutate(rng, body)
     elif r < 0.8:
         body = bytes(rng.randrange(256) for _ in range(rng.randrange(0, 400)))
@@ -507,10 +565,33 @@ CONTENT_TYPES = [b'text/html', b'text/html; charset=utf-8', b'text/html; charset
                  b'text/html; charset=rot13', b'text/html; charset=hex', b'text/html; charset=unicode_escape', b'text/html; charset=utf-32']
 
 
+HOSTILE_LINKS = ['http://[bad/', '//cdn.test/x.class', '//', 'http://h:99999/', '&#0;', 'x', '/a', '../../..', 'javascript:void(0)', 'http://[::1',
+                 '#', '?', 'mailto:x', 'data:,', 'http://%zz/', 'ht!tp://x', '//[', ' ', '', 'http://\u2603.test/', 'http://h.test:port/',
+                 'http://a..b/', 'http://' + 'a' * 300 + '/', '\\\\unc\\path', 'http:///x', 'http://h.test/%', 'ftp://u:p@h.test/']
+HTML_TEMPLATES = ['<base href="{0}">', '<a href="{0}">t</a>', '<img src="{0}" srcset="{1} 1x, {2} 2x">',
+                  '<applet code="{0}" codebase="{1}" archive="{2},{0}"></applet>', '<object data="{0}" codebase="{1}" classid="{2}"></object>',
+                  '<embed src="{0}" codebase="{1}">', '<meta http-equiv="refresh" content="0; url={0}">', '<link rel="stylesheet" href="{0}">',
+                  '<form action="{0}"></form>', '<iframe src="{0}"></iframe>', '<body background="{0}">', '<div style="background:url({0})"></div>',
+                  '<script src="{0}"></script>', '<param name="movie" value="{0}">', '<script>var u = "{0}"; var v = \'{1}\';</script>',
+                  '<style>@import url({0}); a {{ background: url("{1}") }}</style>', '<frame src="{0}">', '<area href="{0}">',
+                  '<video src="{0}" poster="{1}"></video>', '<table background="{0}"><td background="{1}"></table>']
+
+
+def hostile_html(rng):
+    parts = ['<html><head>']
+    for _ in range(rng.choice([2, 4, 8])):
+        t = rng.choice(HTML_TEMPLATES)
+        parts.append(t.format(rng.choice(HOSTILE_LINKS), rng.choice(HOSTILE_LINKS), rng.choice(HOSTILE_LINKS)))
+    parts.append('</body></html>')
+    return ''.join(parts).encode('utf-8')
+
+
 def scrape_case(rng):
     ctype, body = rng.choice(DOCS)
     r = rng.random()
-    if r < 0.6:
+    if r < 0.2:
+        ctype, body = b'text/html', hostile_html(rng)
+    elif r < 0.6:
         body = mutate(rng, body)
     elif r < 0.75:
         body = bytes(rng.randrange(256) for _ in range(rng.randrange(0, 600)))
@@ -645,10 +726,16 @@ def run_crawl_case(case, part):
     part.count('crawl_completed')
     rowmap = {r['url']: r for r in rows}
     s = rowmap.get('http://a.test/sentinel.html')
-    if not s or s['status'] != 'done':
-        part.violation('crawl/sentinel-not-done', {'row': s, 'hostile': case['hostile']}, replay)
-    else:
+    served = [e for e in log if e['target'] == '/sentinel.html' and e.get('served')]
+    if s and s['status'] == 'done':
         part.count('crawl_sentinel_done')
+    elif s and s['status'] in ('skipped', 'error') and not served:
+        # every try of the sentinel was spent on a connection that still held surplus bytes of the hostile response
+        # (the hostile URL is retried in between and poisons each new connection): the sentinel failed as a per-URL
+        # error and the crawl went on, which is all this property asks; the poisoning itself is C08's subject
+        part.count('crawl_sentinel_tries_lost_on_poisoned_connections')
+    else:
+        part.violation('crawl/sentinel-not-done', {'row': s, 'hostile': case['hostile'], 'served': len(served)}, replay)
     unfinished = [r for r in rows if r['status'] in ('todo', 'in_progress')]
     if unfinished:
         part.violation('crawl/rows-left-unfinished', {'rows': unfinished[:3]}, replay)
